@@ -63,7 +63,7 @@ impl TraitHandlerMultiple for IntoEnumHandler {
                 let mut arms_token_stream = proc_macro2::TokenStream::new();
 
                 type Variants<'a> =
-                    Vec<(&'a Ident, bool, usize, Ident, &'a Type, Option<&'a Path>)>;
+                    Vec<(&'a Ident, Option<&'a Ident>, usize, Ident, &'a Type, Option<&'a Path>)>;
 
                 let mut variants: Variants = Vec::new();
 
@@ -136,19 +136,28 @@ impl TraitHandlerMultiple for IntoEnumHandler {
                         }
                     };
 
-                    let (field_name, is_tuple): (Ident, bool) = match field.ident.as_ref() {
-                        Some(ident) => (ident.clone(), false),
-                        None => (format_ident!("_{}", index), true),
-                    };
+                    // the field is bound to a name of its own, a `method` function called like the field is not shadowed by it
+                    let (field_name, field_name_real): (Ident, Option<&Ident>) =
+                        match field.ident.as_ref() {
+                            Some(ident) => (format_ident!("v_{}", ident), Some(ident)),
+                            None => (format_ident!("_{}", index), None),
+                        };
 
-                    variants.push((&variant.ident, is_tuple, index, field_name, &field.ty, method));
+                    variants.push((
+                        &variant.ident,
+                        field_name_real,
+                        index,
+                        field_name,
+                        &field.ty,
+                        method,
+                    ));
                 }
 
                 if variants.is_empty() {
                     return Err(super::panic::no_into_field(&target_ty));
                 }
 
-                for (variant_ident, is_tuple, index, field_name, ty, method) in variants {
+                for (variant_ident, field_name_real, index, field_name, ty, method) in variants {
                     let mut pattern_token_stream = proc_macro2::TokenStream::new();
                     let mut body_token_stream = proc_macro2::TokenStream::new();
 
@@ -167,7 +176,13 @@ impl TraitHandlerMultiple for IntoEnumHandler {
                         }
                     }
 
-                    if is_tuple {
+                    if let Some(field_name_real) = field_name_real {
+                        pattern_token_stream.extend(quote!( #field_name_real: #field_name, .. ));
+
+                        arms_token_stream.extend(
+                            quote!( Self::#variant_ident { #pattern_token_stream } => #body_token_stream, ),
+                        );
+                    } else {
                         for _ in 0..index {
                             pattern_token_stream.extend(quote!(_,));
                         }
@@ -176,12 +191,6 @@ impl TraitHandlerMultiple for IntoEnumHandler {
 
                         arms_token_stream.extend(
                             quote!( Self::#variant_ident ( #pattern_token_stream ) => #body_token_stream, ),
-                        );
-                    } else {
-                        pattern_token_stream.extend(quote!( #field_name, .. ));
-
-                        arms_token_stream.extend(
-                            quote!( Self::#variant_ident { #pattern_token_stream } => #body_token_stream, ),
                         );
                     }
                 }
